@@ -2,7 +2,7 @@ use std::collections::HashMap;
 use std::sync::Arc;
 
 use actix::Addr;
-use actix_web::{web, HttpRequest, HttpResponse, Responder, Scope};
+use actix_web::{web, HttpMessage, HttpRequest, HttpResponse, Responder, Scope};
 use chrono::Local;
 use serde::{Deserialize, Serialize};
 
@@ -22,6 +22,7 @@ use crate::console::v2::ERROR_CODE_SYSTEM_ERROR;
 use crate::merge_web_param;
 use crate::openapi::constant::EMPTY;
 use crate::raft::cluster::model::{DelConfigReq, SetConfigReq};
+use crate::user_namespace_privilege;
 use crate::utils::select_option_by_clone;
 
 pub(super) fn service() -> Scope {
@@ -175,11 +176,21 @@ pub struct ConfigWebConfirmedParam {
 }
 
 pub(crate) async fn add_config(
+    req: HttpRequest,
     a: web::Query<ConfigWebParams>,
     payload: web::Payload,
     appdata: web::Data<Arc<AppShareData>>,
 ) -> impl Responder {
     let selected_param = merge_web_param!(a.0, payload);
+    // only a console session carries a namespace privilege (/rnacos/api/console/cs/configs)
+    let namespace_privilege = user_namespace_privilege!(req);
+    let tenant = Arc::new(selected_param.tenant.clone().unwrap_or_default());
+    if !namespace_privilege.check_permission(&tenant) {
+        return HttpResponse::Unauthorized().body(format!(
+            "user no such namespace permission: {}",
+            tenant.as_str()
+        ));
+    }
     match param_utils::check_tenant(&selected_param.tenant) {
         Ok(v) => v,
         Err(err) => {
@@ -222,11 +233,21 @@ pub(crate) async fn add_config(
 }
 
 pub(crate) async fn del_config(
+    req: HttpRequest,
     a: web::Query<ConfigWebParams>,
     payload: web::Payload,
     appdata: web::Data<Arc<AppShareData>>,
 ) -> impl Responder {
     let selected_param = merge_web_param!(a.0, payload);
+    // only a console session carries a namespace privilege (/rnacos/api/console/cs/configs)
+    let namespace_privilege = user_namespace_privilege!(req);
+    let tenant = Arc::new(selected_param.tenant.clone().unwrap_or_default());
+    if !namespace_privilege.check_permission(&tenant) {
+        return HttpResponse::Unauthorized().body(format!(
+            "user no such namespace permission: {}",
+            tenant.as_str()
+        ));
+    }
     match param_utils::check_tenant(&selected_param.tenant) {
         Ok(v) => v,
         Err(err) => {
@@ -262,9 +283,19 @@ pub(crate) async fn del_config(
 }
 
 pub(crate) async fn get_config(
+    req: HttpRequest,
     web_param: web::Query<ConfigWebParams>,
     appdata: web::Data<Arc<AppShareData>>,
 ) -> impl Responder {
+    // only a console session carries a namespace privilege (/rnacos/api/console/cs/configs)
+    let namespace_privilege = user_namespace_privilege!(req);
+    let tenant = Arc::new(web_param.tenant.clone().unwrap_or_default());
+    if !namespace_privilege.check_permission(&tenant) {
+        return HttpResponse::Unauthorized().body(format!(
+            "user no such namespace permission: {}",
+            tenant.as_str()
+        ));
+    }
     if let Some(search) = web_param.search.as_ref() {
         if search == "blur" {
             let query_param = web_param.0.build_like_search_param();
